@@ -253,10 +253,18 @@ class PtyEnv:
                 self._answer("id", g[7])
         # keep a possibly incomplete sequence for the next round
         rest = scan[pos:]
-        k = rest.rfind(b"\x1b")
-        if k != -1 and len(rest) - k < 96 and not _complete_tail(rest[k:]):
-            out += rest[:k]
-            self._scan = bytearray(rest[k:])
+        # Hold back from the LEFTMOST escape in the tail window that may still become a
+        # query or marker (the last ESC may be the terminator of exactly such a sequence)
+        hold = -1
+        k = rest.find(b"\x1b", max(0, len(rest) - 96))
+        while k != -1:
+            if not _complete_tail(rest[k:]):
+                hold = k
+                break
+            k = rest.find(b"\x1b", k + 1)
+        if hold != -1:
+            out += rest[:hold]
+            self._scan = bytearray(rest[hold:])
         else:
             out += rest
             self._scan = bytearray()
